@@ -176,8 +176,9 @@ class Prefetch(_CHarness):
       self.end = 'done' if done else 'guard'
       if not p['direct']:
         server.stop().join()
-      if server._enqueue_thread is not None:
-        server._enqueue_thread.join()
+      # every prefetch thread (also the one of a replaced generator) and every
+      # handler thread must finish eventually
+      sched.cur().join_all()
     return body
 
   def outcome(self, res):
